@@ -157,13 +157,28 @@ def proof_status(pid):
 
 def coqchk(pid):
     """independent re-check of the compiled property file and everything it depends on (thorough tier)"""
+    # coqchk's verdict is a function of the compiled files alone: the result is memoised under the hash of every .vo of the
+    # development (Flocq + Reals make the C09 run take ~40 min; any change to any .vo invalidates the memo)
+    import hashlib, glob
+    h = hashlib.sha256()
+    for f in sorted(glob.glob(os.path.join(COQ, "**", "*.vo"), recursive=True)):
+        h.update(f.encode()); h.update(hashlib.sha256(open(f, "rb").read()).digest())
+    memo = os.path.join(HOME, ".cache", "coqchk", "%s-%s.json" % (pid, h.hexdigest()[:24]))
+    if os.path.exists(memo):
+        r = json.load(open(memo)); r["memoised"] = True
+        return r
     with Lock("build"):
-        rc, out = sh(f"timeout 2400 coqchk -silent -o -Q . Verif Verif.Properties.{pid}", cwd=COQ, timeout=2500)
+        mods = f"Verif.Properties.{pid}" + (f" Verif.Properties.{pid}b" if os.path.exists(os.path.join(COQ, "Properties", pid + "b.vo")) else "")
+        rc, out = sh(f"timeout 3400 coqchk -silent -o -Q . Verif {mods}", cwd=COQ, timeout=3500)
     summ = out[out.find("CONTEXT SUMMARY"):] if "CONTEXT SUMMARY" in out else out[-1500:]
     ax = re.search(r"\* Axioms:(.*?)\n\s*\n\* Constants", summ, re.S)
     axioms = [a.strip() for a in (ax.group(1).strip().splitlines() if ax else []) if a.strip() and a.strip() != "<none>"]
     bad = [k for k in ("type-in-type", "unsafe (co)fixpoints", "positivity is assumed") if re.search(re.escape(k) + r": (?!<none>)\S", summ)]
-    return {"ok": rc == 0 and not bad, "axioms": axioms, "flags": bad, "tail": summ[-600:] if rc != 0 else ""}
+    r = {"ok": rc == 0 and not bad, "axioms": axioms, "flags": bad, "tail": summ[-600:] if rc != 0 else ""}
+    if r["ok"]:
+        os.makedirs(os.path.dirname(memo), exist_ok=True)
+        json.dump(r, open(memo, "w"))
+    return r
 
 
 def hygiene():
